@@ -31,6 +31,10 @@ PATTERNS = ["spaced", "tight", "square", "ifstmt", "callargs", "semicolon", "con
             "dotted", "continuation_amp", "bang_literal"]
 
 
+# occurrences of the second entity are neither required in nor forbidden from the answers for the first
+MAY_INCLUDE = {"BIND": ("CBIND",), "CBIND": ("BIND",)}
+
+
 def emit(f, ind, pat, n, e):
     """Append the statements of pattern `pat` for name n bound to entity e."""
     if pat == "spaced":
@@ -219,6 +223,47 @@ def build(shape, n, pats):
         f.add("    call ", U(n, "PROC"), "(obj)")
         f.add("  end subroutine work")
         f.add("end module bind_mod")
+    elif shape == "override_and_namesake":
+        # a binding, the binding that overrides it in an extension (whether a search from the one also lists the other is
+        # left open: MAY_INCLUDE) and an unrelated type with a binding of the same spelling, all asked in one session
+        f.add("module over_mod")
+        f.add("  implicit none")
+        f.add("  type :: base_t")
+        f.add("  contains")
+        f.add("    procedure :: ", D(n, "BIND"), " => base_impl")
+        f.add("  end type base_t")
+        f.add("  type, extends(base_t) :: child_t")
+        f.add("  contains")
+        f.add("    procedure :: ", D(n, "CBIND"), " => child_impl")
+        f.add("  end type child_t")
+        f.add("  type :: other_t")
+        f.add("  contains")
+        f.add("    procedure :: ", D(n, "OBIND"), " => other_impl")
+        f.add("  end type other_t")
+        f.add("contains")
+        f.add("  subroutine base_impl(self)")
+        f.add("    class(base_t) :: self")
+        f.add("  end subroutine base_impl")
+        f.add("  subroutine child_impl(self)")
+        f.add("    class(child_t) :: self")
+        f.add("  end subroutine child_impl")
+        f.add("  subroutine other_impl(self)")
+        f.add("    class(other_t) :: self")
+        f.add("  end subroutine other_impl")
+        f.add("  subroutine work(b, c, o)")
+        f.add("    type(base_t) :: b")
+        f.add("    type(child_t) :: c")
+        f.add("    type(other_t) :: o")
+        f.add("    character(len=40) :: text")
+        f.add("    integer :: other")
+        for p in pats:
+            if p in ("comment", "literal"):
+                emit(f, "    ", p, n, "BIND")
+        f.add("    call b%", U(n, "BIND"), "()")
+        f.add("    call c%", U(n, "CBIND"), "()")
+        f.add("    call o%", U(n, "OBIND"), "()")
+        f.add("  end subroutine work")
+        f.add("end module over_mod")
     elif shape == "private_in_submodule":
         # a PRIVATE module entity is still visible in the module's submodules, which may live in other files
         f.add("module priv_mod")
@@ -338,12 +383,17 @@ def run_case(job, acc: Acc):
 
     for ent in ents:
         want = ranges_of(ws, ent)
+        may = {tuple(r) for e2 in MAY_INCLUDE.get(ent, ()) if e2 in ents for r in ranges_of(ws, e2)}
         for o in [x for x in ws.occurrences() if x.ent == ent]:
             path = os.path.join(root, o.file)
             pos = Server.tdpp(path, o.line, (o.col + o.end) // 2)
             refs = norm_locs(s.result("textDocument/references", {**pos, "context": {"includeDeclaration": True}}))
             acc.count("requests")
-            if refs != want:
+            if isinstance(refs, list) and may:
+                refs_cmp = [r for r in refs if tuple(r) not in may]
+            else:
+                refs_cmp = refs
+            if refs_cmp != want:
                 report("references", ent, want, refs, f"references from {o.file}:{o.line}:{o.col}")
             hl = norm_locs(s.result("textDocument/documentHighlight", pos))
             if hl != refs:
@@ -359,7 +409,7 @@ def run_case(job, acc: Acc):
                 for uri, es in r["changes"].items():
                     for e in es:
                         edits.append((os.path.basename(uri), e["range"]["start"]["line"], e["range"]["start"]["character"], e["range"]["end"]["character"], e["newText"]))
-            got = sorted(e[:4] for e in edits)
+            got = sorted(e[:4] for e in edits if tuple(e[:4]) not in may)
             if got != want or any(e[4] != new_name for e in edits):
                 report("rename_edits", ent, want, got, f"rename from {o.file}:{o.line}:{o.col}")
                 continue
@@ -414,7 +464,7 @@ def jobs(maxlen):
                         continue
                     k += 1
                     yield (shape, n, pats, NEW_NAMES[k % len(NEW_NAMES)])
-    for shape in ("interface_body", "abstract_interface", "binding_same_name", "private_in_submodule"):
+    for shape in ("interface_body", "abstract_interface", "binding_same_name", "private_in_submodule", "override_and_namesake"):
         for n in NAMES:
             if "$" in n:
                 continue
